@@ -361,6 +361,98 @@ func denseLine(line string) (res string) {
 			return v
 		}
 		return runRep[orBits](c, from, to, orElem{}.Merge)
+	case "or/inv":
+		if c.k > 60 {
+			bad("k too large")
+		}
+		// complemented storage: bits >= k stay set, so the all-absent vector is Ident
+		from := func(v []int) uint64 {
+			b := ^uint64(0)
+			for i, x := range v {
+				if x != 0 {
+					b &^= 1 << uint(i)
+				}
+			}
+			return b
+		}
+		to := func(b uint64) []int {
+			v := make([]int, c.k)
+			for i := range v {
+				v[i] = int(^b >> uint(i) & 1)
+			}
+			return v
+		}
+		return runRep[orInv](c, from, to, orElem{}.Merge)
+	case "and/bits":
+		if c.k > 60 {
+			bad("k too large")
+		}
+		from := func(v []int) uint64 {
+			b := ^uint64(0)
+			for i, x := range v {
+				if x == 0 {
+					b &^= 1 << uint(i)
+				}
+			}
+			return b
+		}
+		to := func(b uint64) []int {
+			v := make([]int, c.k)
+			for i := range v {
+				v[i] = int(b >> uint(i) & 1)
+			}
+			return v
+		}
+		return runRep[andBits](c, from, to, andElem{}.Merge)
+	case "cp/arr":
+		if c.k > 4 {
+			bad("k too large")
+		}
+		from := func(v []int) cpVec {
+			r := cpArr{}.Ident()
+			for i, x := range v {
+				r[i] = uint8(x) ^ 1
+			}
+			return r
+		}
+		to := func(f cpVec) []int {
+			v := make([]int, c.k)
+			for i := range v {
+				v[i] = int(f[i] ^ 1)
+			}
+			return v
+		}
+		return runRep[cpArr](c, from, to, flatLat{}.Merge)
+	case "ao/prod":
+		if c.k > 60 {
+			bad("k too large")
+		}
+		from := func(v []int) aoFact {
+			f := aoProd{}.Ident()
+			for i, x := range v {
+				if x>>1 == 0 {
+					f.must &^= 1 << uint(i)
+				}
+				if x&1 != 0 {
+					f.may |= 1 << uint(i)
+				}
+			}
+			return f
+		}
+		to := func(f aoFact) []int {
+			v := make([]int, c.k)
+			for i := range v {
+				v[i] = int(f.must>>uint(i)&1)<<1 | int(f.may>>uint(i)&1)
+			}
+			return v
+		}
+		return runRep[aoProd](c, from, to, aoElem{}.Merge)
+	case "ao/dm":
+		f, t := dmRep(c.k, 2)
+		return runRep[dfa.DenseMapLattice[int, aoElem]](c, f, t, aoElem{}.Merge)
+	case "ao/map":
+		f, t := mapRep(c.k, 2)
+		return runRep[dfa.MapLattice[int, int, aoElem]](c, f, t, aoElem{}.Merge)
 	case "or/dm":
 		f, t := dmRep(c.k, 0)
 		return runRep[dfa.DenseMapLattice[int, orElem]](c, f, t, orElem{}.Merge)
